@@ -42,6 +42,8 @@ def trees_for(family: str, tier: str):
         out += [s for k, s in enumerate(gen.plain_specs(4, min_n=4, alphabet=("a", "b"))) if k % 11 == 0]
         out += list(gen.eqpair_specs(3))
         out += [s for k, s in enumerate(gen.explicit_id_specs(3)) if k % 3 == 0]
+        # trees with a calc_data_id callback (identity-hashed objects keyed by .key): exercises the callback oracle
+        out += [gen.Spec(s.nodes, flavour="keyed") for k, s in enumerate(gen.plain_specs(3, alphabet=("a", "b"))) if k % 4 == 1]
     if tier == "quick":
         out = [s for k, s in enumerate(out) if len(s) <= 2 or k % 3 == 0]
     return out
@@ -278,7 +280,8 @@ def run_case(qual, c, family, spec, tags: dict, args: dict, ev_budget=None):
     """returns (status, [failures], n_clauses) ; status in ok | pre-rejected | not-evaluable"""
     from native import gen
 
-    tree, nodes = gen.build(spec)
+    mk = gen.make_data_factory(spec.flavour)
+    tree, nodes = gen.build(spec, mk=mk)
     other, _ = gen.build(gen.Spec(((-1, "o", None, "k1" if spec.typed else None),), typed=spec.typed), name="O")
     # materialise the concrete arguments from their descriptions
     amap = {}
@@ -295,6 +298,8 @@ def run_case(qual, c, family, spec, tags: dict, args: dict, ev_budget=None):
             from nutree.node import Node
             from nutree.typed_tree import TypedNode
             amap[n] = object.__new__(TypedNode if spec.typed else Node)
+        elif kind == "keyed":
+            amap[n] = mk(val)
         elif kind == "anykind":
             from nutree.typed_tree import ANY_KIND
             amap[n] = ANY_KIND
@@ -350,6 +355,9 @@ def run_case(qual, c, family, spec, tags: dict, args: dict, ev_budget=None):
     x0.p = None
     E = EVAL
     E.set_world({"0": s0, "rt1": s1}, consts, max_len)
+    import contracts.vocab as V
+
+    V.RT_EVAL = E
     # heap components outside `modifies` are read from the entry snapshot by construction; the frame is checked natively
     fails = []
     n_clauses = 0
@@ -427,8 +435,12 @@ def arg_descriptions(tag, spec, tree_nodes_n, clone_lists_n, rng):
     if tag == "int":
         return [("lit", v) for v in (-1, 0, 1, 2, 5)]
     if tag in ("val", "data"):
+        if spec.flavour == "keyed":
+            return [("keyed", "a"), ("keyed", "zz"), ("lit", "a")]
         return [("lit", v) for v in ("a", "b", "zz", 7)]
     if tag == "id":
+        if spec.flavour == "keyed":
+            return [("lit", v) for v in ("key_a", "key_b", "idX", 5)]
         return [("lit", v) for v in ("a", "idX", 5, 0, hash("a"), hash("b"), 1, 2)]
     if tag == "kind":
         return [("lit", v) for v in ("k1", "k2", "".join(["k", "1"]), "kx")]
